@@ -101,7 +101,9 @@ CLAIMED = {
              "last_read is evicted first is left open by the theorems (tie-break parameter) and avoided by the generator.",
         design="5/C05 and C15", technique="Coq proof over executable model + model/impl correspondence (extraction)"),
     "C01": dict(
-        text="LOCAL PART ONLY at this stage (zones + cache: local::resolve_local and resolve() in authoritative-only mode). "
+        text="All three resolver modes are covered by correspondence streams; the theorems listed cover local resolution (zones + "
+             "cache: local::resolve_local and resolve() in authoritative-only mode) and the theorems for the network modes are being "
+             "added separately. "
              "Theorems about the Gallina model of resolve_local / prioritising_merge / the question stack over the zone model and a "
              "cache read function: a name owned by an authoritative zone (longest enclosing apex has a SOA, name not at/beneath a "
              "delegation point) is answered by that zone alone -- exactly the zone's RRs or a name error, with the zone's SOA, or the "
@@ -113,15 +115,30 @@ CLAIMED = {
              "the question name (never through an alias); no fuel exhaustion, panic only if the zone model panics. Model tied to the "
              "Rust code by a differential stream over generated zone sets x cache contents x questions, comparing both the "
              "ResolvedRecord of resolve() and the raw LocalResolutionResult, with a python oracle evaluating the property on the "
-             "implementation's output.",
-        note="Recursive and forwarding modes (no upstream contact for locally answered questions, nothing upstream used for owned "
-             "names: done_means_no_upstream, log_names_not_owned) and the server's rcode mapping are NOT covered yet; they are "
-             "covered by the resolver subsystem's streams and theorems when they land. What a single zone answers for a name is "
-             "C02's subject; C01's theorems are stated in terms of the zone's own result. Deviation D2: a chain leaving authority is "
-             "non-authoritative (pinned test).",
+             "implementation's output. Recursive mode (all four protocol modes) and forwarding mode: a second differential stream "
+             "(vlib/netgen.py on the resolver drivers: the Gallina models of recursive.rs / forwarding.rs against the real code "
+             "over the in-memory transport) with generated universes of upstream servers that hold DIFFERENT data for the names "
+             "local zones own or override, hosts-style overrides and blocklist entries in the root hints zone, initial caches "
+             "contradicting local data, alias chains local zone -> cache -> upstream, referrals before the answer, ANY questions; "
+             "the oracle checks on the implementation's output that no logged exchange asks about a name an authoritative local "
+             "zone owns, that a question local data answers has an empty exchange log, override exactness, authoritative marking "
+             "(clear-cut subclass), name errors only from an authoritative local zone, and the provenance of every record at an "
+             "owned name.",
+        note="The clause 'nothing from an upstream server is used for names the zone owns' holds for questions ABOUT owned names and "
+             "for chains the resolver follows itself (local zone, cache, one upstream reply per link: the target is re-resolved "
+             "locally), with one RECORDED exception (known_findings.json, class upstream-chain-into-owned-name, printed as "
+             "KNOWN-FINDING on every run, witnesses first in the stream): the tail of an alias chain delivered inside ONE upstream "
+             "reply is passed on as it is, so upstream's records for an owned name are returned when the alias and its target sit on "
+             "one upstream server (recursive) or whenever the forwarder chases an alias into an owned name (forwarding). The same "
+             "does not happen through the cache (a cached alias's target is re-resolved locally; corpus case). Theorems for the "
+             "network modes (done_means_no_upstream, log_names_not_owned) are being added separately; until they are listed the "
+             "network-mode clauses rest on the correspondence stream and its oracle. The server's rcode mapping is C09's. What a "
+             "single zone answers for a name is C02's subject; C01's theorems are stated in terms of the zone's own result. "
+             "Deviation D2: a chain leaving authority is non-authoritative (pinned test).",
         design="5/C01 and C10", technique="Coq proof over executable model + model/impl correspondence (extraction)"),
     "C10": dict(
-        text="LOCAL PART ONLY at this stage (chains whose links come from zones and the cache). Theorems about the Gallina model "
+        text="All three resolver modes are covered by correspondence streams; the theorems listed cover chains whose links come from "
+             "zones and the cache, and the theorems for the network modes are being added separately. Theorems about the Gallina model "
              "of resolve_local: for a question of a type other than CNAME/ANY every successful local result that is not a direct "
              "referral satisfies chain_ok (CNAMEs first, each owner the previous target, starting at the question name, no owner "
              "twice, then only RRs of the asked type owned by the last target) for every mix of authoritative zones, "
@@ -129,9 +146,21 @@ CLAIMED = {
              "recursion is two guards plus one step on the stack extended by the question, so the stack never repeats a question "
              "nor exceeds 32, fuel 33 - |stack| suffices, and RecursionLimit/DuplicateQuestion only ever come from the question's "
              "own guards (inner loops end the chain in a partial result). Model tied to the Rust code by a differential stream "
-             "with alias graphs of 0..40 links spread over zones and cache, cycles and self-loops, RR order compared exactly.",
-        note="Chains continuing upstream (filter_chain_ok, recursive_chain_ok, forwarding_chain_ok; findings F8/F13) are NOT covered "
-             "yet; they are covered by the resolver subsystem's streams and theorems when they land. local_chain_ok assumes of the "
+             "with alias graphs of 0..40 links spread over zones and cache, cycles and self-loops, RR order compared exactly. "
+             "Recursive mode (all four protocol modes) and forwarding mode: a second differential stream (vlib/netgen.py on the "
+             "resolver drivers) with chains crossing local zone -> cache -> upstream, cached chains of 1..3 links ending at a name "
+             "only upstream knows, upstream cycles (through and not through the question name, self-loops, across two zones), "
+             "chains of 29..40 links inside one upstream zone, alternating between two upstream zones, inside a local zone and "
+             "mixed; the oracle checks on the implementation's output: completion within 60 s of virtual time (no hang, no stack "
+             "overflow), no record twice, chain_ok for every successful reply to a question of a type other than CNAME/ANY -- in "
+             "recursive mode always, in forwarding mode whenever the forwarder's own answers are repetition-free and in chain "
+             "order (D6).",
+        note="Theorems for chains continuing upstream (recursive_chain_ok, forwarding_chain_ok; filter_chain_ok is C06's) are being "
+             "added separately; until they are listed the network-mode clauses rest on the correspondence stream and its oracle. "
+             "In forwarding mode the forwarder's answer section is passed on as it is (D6): a forwarder that repeats the records "
+             "of an alias cycle (the modelled one does, up to 64) gets them passed on; such replies are counted and not judged. "
+             "In the network modes a chain longer than 32 that lies in a local zone is answered whole (each stage of the "
+             "resolution follows up to 32 local links; bound about 32 x 32), which the check accepts. local_chain_ok assumes of the "
              "sources: zone answers are owned by the query name with the asked type (proved here for zone trees whose record maps "
              "are keyed by record type -- decidable, preservation by insertion is C02's) and cache reads return RRs of the asked "
              "name and type (C05). A direct referral from an authoritative zone puts NS RRs in the answer (C09's finding F12) and "
